@@ -535,8 +535,8 @@ def rule_parent_state(ctx, rep, config="c-lib"):
                 n += 1
                 for b in base_of(s_.ops[0]):
                     bases.setdefault(b, []).append(s_)
-    if n < 3:
-        raise AnalysisBroken("C03-parent: %d stores of parent_anode_state in the candidate loop (3 confirmed by reading)" % n)
+    if n < 2:
+        raise AnalysisBroken("C03-parent: %d stores of parent_anode_state in the candidate loop (one per kind of pushed state, 2 at least)" % n)
     if len(bases) == 1:
         rep.ok("C03-parent", "make_parse/one-parent-state", sample={"stores": n})
     else:
@@ -544,6 +544,110 @@ def rule_parent_state(ctx, rep, config="c-lib"):
         rep.violation("C03-parent", "make_parse/one-parent-state", "the states pushed for the candidates of one nonterminal are hung under different parse states: the store at %s "
                       "uses another state than the %d sibling stores -- the translation of that candidate lands in the abstract node of another split, the node copied for "
                       "this split keeps an empty slot" % (minority[1][0].where(), n - len(minority[1])), where=minority[1][0].where(), witness=[s_.where() for ss in bases.values() for s_ in ss][:6])
+
+
+def rule_parent_disp(ctx, rep, config="c-lib"):
+    rep.rule("C03-parent-disp", "a pushed state records where its translation goes as the pair (parent_anode_state, parent_disp): a state that inherits the parent state of "
+                                "X (X->parent_anode_state) inherits X's slot (X->parent_disp), a state hung under X itself takes a slot of X's own rule -- on every path "
+                                "the two stores to one new state are of the same kind (straight stores, `?:' values and merged stores are decomposed by their condition)")
+    from .r5 import _controlling_conditions
+    p = ctx.prog(config)
+    f = p.fn("make_parse")
+    rep.cover(p, [f.name])
+
+    def kind(op, field):
+        i = f.inst(strip_casts(f, op))
+        if i is not None and i.op in ("sext", "zext", "trunc"):
+            i = f.inst(strip_casts(f, i.ops[0]))
+        if i is not None and i.op == "load":
+            pa = resolve_addr(f, i.ops[0])
+            if pa.last_field() == field and pa.root[0] == "val":
+                return "inherit"
+        return "own"
+
+    def ckey(c, pol):
+        pr = c.d["pred"]
+        if pr == "ne":
+            pr, pol = "eq", not pol
+        return (pr, repr(strip_casts(f, c.ops[0])), repr(strip_casts(f, c.ops[1]))), pol
+
+    def decomp(op, field, at_block):
+        """{(): kind}  or  {(key, True): kind, (key, False): kind}"""
+        i = f.inst(strip_casts(f, op))
+        if i is not None and i.op == "select":
+            c = f.inst(i.ops[0])
+            if c is not None and c.op == "icmp":
+                k, pol = ckey(c, True)
+                return {(k, pol): kind(i.ops[1], field), (k, not pol): kind(i.ops[2], field)}
+            return None
+        if i is not None and i.op == "phi" and len(i.d["incoming"]) == 2:
+            base = set((c.id, pol) for (c, pol) in _controlling_conditions(f, i.block.name))
+            res = {}
+            kinds = set(kind(v, field) for (v, _) in i.d["incoming"])
+            if kinds == set(["own"]):
+                return {(): "own"}      # a variable that holds a state / an index on every path, nothing inherited
+            for (v, pb) in i.d["incoming"]:
+                extra = [(c, pol) for (c, pol) in _controlling_conditions(f, pb) if (c.id, pol) not in base]
+                if len(extra) != 1:
+                    return None
+                k, pol = ckey(*extra[0])
+                res[(k, pol)] = kind(v, field)
+            return res if len(res) == 2 and len(set(k for (k, _) in res)) == 1 else None
+        return {(): kind(op, field)}
+
+    pst = {}
+    dst = {}
+    for s_ in f.all_insts():
+        if s_.op != "store":
+            continue
+        pa = resolve_addr(f, s_.ops[1])
+        lf = pa.last_field()
+        if lf in ("parse_state.parent_anode_state", "parse_state.parent_disp") and pa.root[0] == "val":
+            o = strip_casts(f, pa.root[1]).get("v")
+            (pst if lf.endswith("state") else dst).setdefault((o, s_.block.name), []).append(s_)
+    n = 0
+    for (o, bn), ss in sorted(pst.items(), key=lambda kv: str(kv[0])):
+        for s_ in ss:
+            if strip_casts(f, s_.ops[0]).get("k") == "null":
+                continue     # the root state
+            mates = dst.get((o, bn), [])
+            if len(mates) != 1:
+                # the slot is stored in another block: same object, a block that the state store dominates or that dominates it
+                cand = [x for ((o2, b2), xs) in dst.items() if o2 == o for x in xs]
+                mates = cand if len(cand) == 1 else mates
+            if len(mates) != 1:
+                raise AnalysisBroken("C03-parent-disp: the store of parent_disp that goes with the store of parent_anode_state at %s was not found" % s_.where())
+            d_ = mates[0]
+            n += 1
+            a = decomp(s_.ops[0], "parse_state.parent_anode_state", bn)
+            b = decomp(d_.ops[0], "parse_state.parent_disp", bn)
+            if a is None or b is None:
+                raise AnalysisBroken("C03-parent-disp: value stored at %s not understood" % (s_.where() if a is None else d_.where()))
+            key = "make_parse/state-pushed-at-line-group-%d" % n
+            bad = None
+            if set(a) == set(b):
+                for k in a:
+                    if a[k] != b[k]:
+                        bad = "parent_anode_state is %s while parent_disp is %s" % (_kn(a[k]), _kn(b[k]))
+            elif list(a) == [()] or list(b) == [()]:
+                one, two = (a, b) if list(a) == [()] else (b, a)
+                if len(set(two.values())) > 1:
+                    bad = "one of the two depends on a condition (%s), the other is always %s" % (", ".join(sorted(set(_kn(x) for x in two.values()))), _kn(one[()]))
+                elif list(two.values())[0] != one[()]:
+                    bad = "parent_anode_state and parent_disp are of different kinds"
+            else:
+                raise AnalysisBroken("C03-parent-disp: the two stores at %s / %s depend on different conditions" % (s_.where(), d_.where()))
+            if bad:
+                rep.violation("C03-parent-disp", key, "the new state's (parent state, slot) pair is crossed: %s -- the translation of this subtree is written into a slot "
+                              "of the wrong abstract node (the intended slot stays empty or a sibling's translation is overwritten)" % bad, where=d_.where(),
+                              witness=[s_.where(), d_.where()])
+            else:
+                rep.ok("C03-parent-disp", key, sample={"state": s_.where(), "slot": d_.where(), "cases": len(a)})
+    rep.floor("C03-parent-disp", "(parent state, slot) store pairs of pushed states", n, 2)
+
+
+def _kn(k):
+    return "inherited from the current state" if k == "inherit" else "the current state's own"
 
 
 def rule_slot_pairing(ctx, rep, config="c-lib"):
